@@ -207,6 +207,31 @@ def run(chk):
         return rep
 
     b.run(on_violation)
+    large_collection(chk, nn, rng, 47011 if not thorough else 70001)
+
+
+def large_collection(chk, nn, rng, n):
+    """more than 46341 sequences (position products beyond 2^31): planted neighbour pairs at late positions must be reported, and
+    every reported triplet must be a true pair with its exact distance"""
+    from Levenshtein import distance as levd
+    xs, pairs = gen.planted(rng, n)
+    for name, fn in (("symdel", lambda: nn.symdel(xs, max_edits=1)), ("nearest_neighbor", lambda: nn.nearest_neighbor(xs, max_edits=1))):
+        r = core.call_real(lambda: [(int(a), int(b), int(d)) for a, b, d in fn()])
+        chk.case(nontrivial_key=("large", name, n))
+        chk.count("large-collection")
+        if r[0] != "ok":
+            chk.violation(f"C01|{name}|large|raises-{r[1]}", f"{name} raised {r[1]} on {n} sequences", {"n": n})
+            continue
+        got = set(r[1])
+        want = {(i, j, d) for i, j, d in pairs} | {(j, i, d) for i, j, d in pairs}
+        bad = [t for t in r[1] if not (0 <= t[0] < n and 0 <= t[1] < n and t[0] != t[1] and levd(xs[t[0]], xs[t[1]]) == t[2] <= 1)]
+        missing = sorted(want - got)
+        if bad or missing or len(got) != len(r[1]):
+            ex = (bad or missing)[0] if (bad or missing) else None
+            chk.violation(f"C01|{name}|large|{'spurious' if bad else ('missing' if missing else 'repeated')}",
+                          f"{name} on {n} sequences: {len(bad)} reported triplets are not true pairs, {len(missing)} planted pairs are missing, "
+                          f"{len(r[1]) - len(got)} repeated; e.g. {ex}", {"n": n, "example": ex, "planted": pairs[:6],
+                                                                        "generator": "gen.planted(random.Random(seed-derived), n)"})
 
 
 def replay(path):
